@@ -393,6 +393,16 @@ def judge_bookmark_tree(levels, labels, tree):
     return None
 
 
+def judge_targets(tree, want):
+    """Each entry of the tree points to its bookmark's page and position: `want` = (page, x, y) of the bookmarks
+    in document order (the pre-order of the tree, checked before)."""
+    for (_, label, target, _), (page, x, y) in zip(flatten_tree(tree), want):
+        if (int(target[0]), F(target[1]), F(target[2])) != (page, x, y):
+            return (f'bookmark {label!r} points to page {target[0]} at ({target[1]}, {target[2]}); it lies on page '
+                    f'{page} at ({x}, {y})')
+    return None
+
+
 def judge_outlines(forest, refs, wire_objects, dictionary, count, parent):
     """Clauses of `outline_links` on the dictionaries written by the implementation."""
     objs = {o[0]: dict(zip(('num', 'title', 'page', 'x', 'y', 'count', 'prev', 'next', 'first', 'last', 'parent'), o))
@@ -708,6 +718,10 @@ class C18(PropCheck):
                                'annots-other-link-types'],
         'metadata-direct': ['meta-title', 'meta-author', 'meta-description', 'meta-keywords', 'meta-generator',
                             'meta-dcterms.created', 'meta-dcterms.modified', 'meta-other', 'rdf-a1', 'rdf-ua1'],
+        'doc-bookmark-tree': ['page-heights-differ'],
+        'doc-pdf-outlines': ['page-heights-differ'],
+        'doc-page-subset': ['pages-dropped', 'page-repeated', 'pages-reordered', 'link-to-unselected-page', 'links',
+                            'outlines', 'second-write', 'second-write-ok', 'second-write-error'],
         'doc-gather': ['anchors', 'links', 'bookmarks', 'inline-link-with-horizontal-margin'],
         'link-attribute-direct': ['none', 'internal', 'external', 'fragment-only', 'same-document', 'same-path-other-query',
                                   'other-document-with-fragment', 'no-fragment', 'no-base', 'empty', 'fragment-escaped',
@@ -765,9 +779,9 @@ class C18(PropCheck):
             'least 3 bookmarks over at least 2 pages')
         for i in range(run.n(1200, 20000)):
             adversarial = i % 6 == 5
-            n = rng.choice([0, 1, 3, 6, 12, 40, 80])
+            n = rng.choice([0, 1, 3, 6, 12, 40, 80]) if i >= 40 else rng.choice([1, 2, 3])   # readable cases first
             bookmarks = gen_bookmarks(rng, n, adversarial)
-            chunks = G.split_pages(rng, bookmarks)
+            chunks = G.split_pages(rng, bookmarks, 6 if i >= 40 else 3)
             pages = [(G.dyadic(rng, 1, 400), chunk) for chunk in chunks]
             scale = rng.choice([F(1), F(3, 4), F(3, 2), F(3, 8), G.any_rat(rng)])
             transform = rng.random() < 0.5
@@ -1126,7 +1140,19 @@ class C18(PropCheck):
             if impl.startswith('err:'):
                 return f'bookmark levels {levels} (all >= 1): {impl}'
             tree = wire_tree_to_tuples(sx.loads_line(impl)[0])
-            return judge_bookmark_tree(levels, [esc(b[1]) for b in bookmarks], tree)
+            what = judge_bookmark_tree(levels, [esc(b[1]) for b in bookmarks], tree)
+            if what:
+                return what
+            if kind == 'pbt':
+                # the point of each bookmark through the matrix given for its page, with that page's number
+                want = [(n, F(x) * F(m[0]) + F(y) * F(m[2]) + F(m[4]), F(x) * F(m[1]) + F(y) * F(m[3]) + F(m[5]))
+                        for n, m, chunk in meta['pages'] for _, _, x, y, _ in chunk]
+            else:
+                # CSS px from the top of *its own* page -> scaled; with transform_pages, PDF units from the bottom
+                scale = F(meta['scale'])
+                want = [(i, F(x) * scale, (F(h) - F(y)) * scale if meta['transform'] else F(y) * scale)
+                        for i, (h, chunk) in enumerate(meta['pages']) for _, _, x, y, _ in chunk]
+            return judge_targets(tree, want)
         if kind == 'outl':
             forest, refs = meta['forest'], meta['refs']
             pages_ok = all(0 <= page < len(refs) for _, (page, _, _), _, _ in _walk(forest))
@@ -1154,6 +1180,8 @@ class C18(PropCheck):
             return judge_resolved(pages, out)
         if kind == 'aabb':
             return _judge_aabb(meta, impl)
+        if kind in ('matmul', 'tpoint'):
+            return _judge_matrix(meta, impl)
         if kind == 'gather':
             return judge_gather(meta['spec'], impl)
         if kind == 'watt':
@@ -1204,6 +1232,21 @@ class C18(PropCheck):
             if what:
                 record(what, meta)
                 break
+        from weasyprint.document import Document
+        for _ in range(300):
+            run.search_stats['evaluations'] += 1
+            bookmarks = gen_bookmarks(rng, rng.choice([1, 2, 3, 5]))
+            pages = [(G.dyadic(rng, 1, 400), chunk) for chunk in G.split_pages(rng, bookmarks, 3)]
+            scale, transform = rng.choice([F(1), F(3, 4), F(3, 2)]), rng.random() < 0.7
+            stub = SimpleNamespace(pages=[
+                SimpleNamespace(height=h, bookmarks=[(lvl, lab, (x, y), st) for lvl, lab, x, y, st in chunk])
+                for h, chunk in pages])
+            meta = {'kind': 'mbt', 'pages': pages, 'scale': scale, 'transform': transform}
+            out = G.outcome(lambda: sx.dumps(G.tree_wire(Document.make_bookmark_tree(stub, scale, transform))))
+            what = self.judge({'meta': meta, 'impl': out})
+            if what:
+                record(what, meta)
+                break
         for _ in range(300):
             run.search_stats['evaluations'] += 1
             n_pages = rng.randint(1, 3)
@@ -1243,9 +1286,9 @@ class C18(PropCheck):
 
     def finding_replays(self):
         return {'pdf-string-cr': D.replay_pdf_string_cr,
-                'embedded-files-written-form-order': D.replay_embedded_files_written_form_order,
                 'embedded-files-duplicate-keys': D.replay_embedded_files_duplicate_keys,
-                'anchor-id-shadowed-by-name': D.replay_anchor_id_shadowed}
+                'anchor-id-shadowed-by-name': D.replay_anchor_id_shadowed,
+                'attachment-second-write-crash': D.replay_attachment_second_write}
 
     def replay(self, data):
         inp = data.get('input', {})
@@ -1255,13 +1298,15 @@ class C18(PropCheck):
         kind = meta.get('kind')
         meta = _revive(meta)
         if kind == 'pbt':
-            pages = [(n, tuple(m), [tuple(b) for b in chunk]) for n, m, chunk in meta['pages']]
+            pages = [(n, tuple(F(v) for v in m), [(b[0], b[1], F(b[2]), F(b[3]), b[4]) for b in chunk])
+                     for n, m, chunk in meta['pages']]
             init = (list(meta['init'][0]), meta['init'][1], meta['init'][2])
             out = G.outcome(lambda: run_real_pbt(init, pages))
             return self.judge({'meta': dict(meta, init=init, pages=pages), 'impl': out})
         if kind == 'mbt':
             from weasyprint.document import Document
-            pages = [(h, [tuple(b) for b in chunk]) for h, chunk in meta['pages']]
+            pages = [(F(h), [(b[0], b[1], F(b[2]), F(b[3]), b[4]) for b in chunk]) for h, chunk in meta['pages']]
+            meta = dict(meta, scale=F(meta['scale']))
             stub = SimpleNamespace(pages=[
                 SimpleNamespace(height=h, bookmarks=[(lvl, lab, (x, y), st) for lvl, lab, x, y, st in chunk])
                 for h, chunk in pages])
@@ -1273,15 +1318,38 @@ class C18(PropCheck):
             out, refs, _, parent = run_real_outlines(meta['n_pages'], meta['gaps'], forest, meta['parent'] is not None)
             return self.judge({'meta': dict(meta, forest=forest, refs=refs, parent=parent), 'impl': out})
         if kind == 'resolve':
-            pages = [([tuple(a) for a in anchors], [tuple(l) for l in links]) for anchors, links in meta['pages']]
+            pages = [([(a[0], F(a[1]), F(a[2])) for a in anchors], [tuple(l) for l in links])
+                     for anchors, links in meta['pages']]
             out = G.outcome(lambda: run_real_resolve(pages))
             return self.judge({'meta': dict(meta, pages=pages), 'impl': out})
         if kind == 'aabb':
             from weasyprint.anchors import rectangle_aabb
-            m, rect = meta['matrix'], meta['rect']
+            m = None if meta['matrix'] is None else tuple(F(v) for v in meta['matrix'])
+            rect = tuple(F(v) for v in meta['rect'])
             out = G.outcome(lambda: sx.line(*[G.frac(v) for v in rectangle_aabb(
                 None if m is None else G.real_matrix(m), *rect)]))
-            return self.judge({'meta': meta, 'impl': out})
+            return self.judge({'meta': dict(meta, matrix=m, rect=rect), 'impl': out})
+        if kind in ('matmul', 'tpoint'):
+            m = tuple(F(v) for v in meta['m'])
+            if kind == 'matmul':
+                n = tuple(F(v) for v in meta['n'])
+                out = G.outcome(lambda: sx.line(*[G.frac(v) for v in (G.real_matrix(m) @ G.real_matrix(n)).values]))
+                return self.judge({'meta': dict(meta, m=m, n=n), 'impl': out})
+            point = tuple(F(v) for v in meta['p'])
+            out = G.outcome(lambda: sx.line(*[G.frac(v) for v in G.real_matrix(m).transform_point(*point)]))
+            return self.judge({'meta': dict(meta, m=m, p=point), 'impl': out})
+        if kind == 'meta':
+            from weasyprint.html import get_html_metadata
+
+            def opt(v):
+                return None if v is None else G.cps(v)
+
+            def real_meta():
+                got = get_html_metadata(docs.html(meta['html']))
+                return sx.line(opt(got['title']), opt(got['description']), opt(got['generator']),
+                               [G.cps(k) for k in got['keywords']], [G.cps(a) for a in got['authors']],
+                               opt(got['created']), opt(got['modified']), opt(got['lang']))
+            return judge_metadata(meta, G.outcome(real_meta))
         if kind == 'w3c':
             from weasyprint.pdf import _w3c_date_to_pdf
             out = G.outcome(lambda: _w3c_date_to_pdf(meta['string'], 'verif'))
@@ -1387,6 +1455,27 @@ def _judge_aabb(meta, impl):
     return None
 
 
+def _judge_matrix(meta, impl):
+    """Matrix.__matmul__ / transform_point on affine matrices: (x, y) -> (x a + y c + e, x b + y d + f);
+    `m @ n` transforms by m first, then by n."""
+    if impl.startswith('err:'):
+        return f'Matrix operation raised {impl}'
+    got = tuple(F(v) for v in impl.split())
+    a, b, c, d, e, f = [F(v) for v in meta['m']]
+
+    def point(matrix, x, y):
+        return x * matrix[0] + y * matrix[2] + matrix[4], x * matrix[1] + y * matrix[3] + matrix[5]
+    if meta['kind'] == 'tpoint':
+        want = point((a, b, c, d, e, f), *[F(v) for v in meta['p']])
+        return None if got == want else f'Matrix{meta["m"]}.transform_point{tuple(meta["p"])} gives {got}, expected {want}'
+    n = [F(v) for v in meta['n']]
+    # the product is determined by the images of (0, 0), (1, 0), (0, 1)
+    images = [point(n, *point((a, b, c, d, e, f), x, y)) for x, y in ((0, 0), (1, 0), (0, 1))]
+    want = (images[1][0] - images[0][0], images[1][1] - images[0][1], images[2][0] - images[0][0],
+            images[2][1] - images[0][1], images[0][0], images[0][1])
+    return None if got == want else f'Matrix{meta["m"]} @ Matrix{meta["n"]} gives {got}, expected {want}'
+
+
 def _has_transformed_payload(spec, under):
     under = under or (bool(spec['ops']) and spec['kind'] != 'inline')
     payload = (spec['label'] and spec['level']) or spec['link'] or spec['anchor']
@@ -1437,8 +1526,7 @@ MANIFEST = {
             'for a bare fragment or the document\'s own URL (same scheme, host, path and query) and then targets the unquoted '
             'fragment, otherwise it carries the resolved URL; unquote undoes iri_to_uri; the clickable rectangle of a box is '
             'its border box (inline: over the line height) computed from the used values; /Dests is sorted by the bytes of '
-            'its keys for every set of names, /EmbeddedFiles by the written form of its keys (by bytes only for plain keys: '
-            'finding). Also: the bookmark builder never fails on levels >= 1 however the list is split over pages, '
+            'its keys for every set of names, and so is /EmbeddedFiles for every list of attachments (equal names in document order); every outline entry points into its own page (its number, its height) whatever the page sizes. Also: the bookmark builder never fails on levels >= 1 however the list is split over pages, '
             'the pre-order of its tree is the bookmark list, depths follow the nearest-smaller-level rule and the '
             'result does not depend on the page split; add_outlines links siblings both ways, sets First/Last/Parent '
             'and Count = visible descendants; resolve_links emits no dangling internal link and lists every anchor '
